@@ -78,8 +78,8 @@ def pat_bindings(p):
         out.append((p['id'], p['name']))
         if 'sub' in p:
             out += pat_bindings(p['sub'])
-    elif k in ('ptuplestruct', 'ptuple', 'por'):
-        for x in p['pats']:
+    elif k in ('ptuplestruct', 'ptuple', 'por', 'pslice'):
+        for x in list(p['pats']) + list(p.get('after', [])):
             out += pat_bindings(x)
     elif k == 'pstruct':
         for f in p['fields']:
